@@ -7,7 +7,7 @@
 (* the semantics only speaks of the key a handle designates.               *)
 (* Properties C04, C05, C08, C09, C12, C13, C17 are statements about it.   *)
 (***************************************************************************)
-EXTENDS Integers, Sequences, FiniteSets
+EXTENDS Integers, Sequences, FiniteSets, FiniteSetsExt      \* FiniteSetsExt: linear-time Max / Min of a set
 
 VARIABLES m,      \* [keys -> values]
           des     \* [issued handles -> keys]
@@ -20,8 +20,8 @@ Empty == [x \in {} |-> 0]
 Without(f, k) == [x \in (DOMAIN f) \ {k} |-> f[x]]
 With(f, k, v) == [x \in (DOMAIN f) \cup {k} |-> IF x = k THEN v ELSE f[x]]
 
-MaxOf(S) == CHOOSE x \in S : \A y \in S : y <= x
-MinOf(S) == CHOOSE x \in S : \A y \in S : x <= y
+MaxOf(S) == Max(S)
+MinOf(S) == Min(S)
 
 HasPred(p) == \E k \in Dom : k <= p
 Pred(p)    == MaxOf({k \in Dom : k <= p})
